@@ -95,7 +95,7 @@ def escape_templates():
               "let mut bump: Bump = Bump::new();\nBumpAllocator::scoped_aligned::<8, _>(&mut bump, |scope| {{ let x = {P}; touch(&x); }});", "scope"))
     T.append(("return from scoped closure of a generic B: BumpAllocator", "generic BumpAllocator", False,
               "fn run<B: BumpAllocator>(b: &mut B) {{ let x = b.scoped(|scope| {{ {P} }}); touch(&x); }}\nlet mut bump: Bump = Bump::new();\nrun(&mut bump);",
-              "fn run<B: BumpAllocator>(b: &mut B) {{ b.scoped(|scope| {{ let x = {P}; touch(&x); }}); }}\nlet mut bump: Bump = Bump::new();\nrun(&mut bump);", "scope"))
+              "fn run<B: BumpAllocator>(b: &mut B) {{ b.scoped(|scope| {{ let x = {P}; touch(&x); }}); }}\nlet mut bump: Bump = Bump::new();\nrun(&mut bump);", "generic"))
     T.append(("hold across drop of a trait-level scope guard", "trait scope_guard", False,
               "let mut bump: Bump = Bump::new();\nlet x;\n{{\n    let mut guard = BumpAllocator::scope_guard(&mut bump);\n    let scope = guard.scope();\n    x = {P};\n}}\ntouch(&x);",
               "let mut bump: Bump = Bump::new();\n{{\n    let mut guard = BumpAllocator::scope_guard(&mut bump);\n    let scope = guard.scope();\n    let x = {P};\n    touch(&x);\n}}", "scope"))
